@@ -5,13 +5,13 @@ open Datatypes
 open List0
 
 type istats = { st_min : coq_Z; st_max : coq_Z; st_incr : coq_Z;
-                st_allow : bool; st_last : coq_Z }
+                st_allow : bool; st_last : coq_Z; st_seen : bool }
 
 (** val istats_init : istats **)
 
 let istats_init =
   { st_min = i64_max; st_max = i64_min; st_incr = Z0; st_allow = true;
-    st_last = i64_min }
+    st_last = i64_min; st_seen = false }
 
 (** val istats_push : istats -> coq_Z -> istats **)
 
@@ -19,10 +19,9 @@ let istats_push st e =
   { st_min = (Z.min e st.st_min); st_max = (Z.max e st.st_max); st_incr =
     (if Z.ltb st.st_last e then Z.add st.st_incr (Zpos Coq_xH) else st.st_incr);
     st_allow =
-    (if Z.ltb st.st_last e
-     then st.st_allow
-     else if in_i64 (Z.sub e st.st_last) then st.st_allow else false);
-    st_last = e }
+    (if (&&) st.st_seen (negb (in_i64 (Z.sub e st.st_last)))
+     then false
+     else st.st_allow); st_last = e; st_seen = true }
 
 (** val istats_push_all : istats -> coq_Z list -> istats **)
 
@@ -64,20 +63,21 @@ let delta_transform values mn mx =
 let interval mn mx =
   if (&&) (Z.ltb mn Z0) (Z.ltb Z0 mx)
   then Val (Z.add mx (Z.opp mn))
-  else bind (sub64 mx mn) (fun d -> Val
-         (if Z.ltb d Z0
-          then Z.add d (Zpos (Coq_xO (Coq_xO (Coq_xO (Coq_xO (Coq_xO (Coq_xO
-                 (Coq_xO (Coq_xO (Coq_xO (Coq_xO (Coq_xO (Coq_xO (Coq_xO
-                 (Coq_xO (Coq_xO (Coq_xO (Coq_xO (Coq_xO (Coq_xO (Coq_xO
-                 (Coq_xO (Coq_xO (Coq_xO (Coq_xO (Coq_xO (Coq_xO (Coq_xO
-                 (Coq_xO (Coq_xO (Coq_xO (Coq_xO (Coq_xO (Coq_xO (Coq_xO
-                 (Coq_xO (Coq_xO (Coq_xO (Coq_xO (Coq_xO (Coq_xO (Coq_xO
-                 (Coq_xO (Coq_xO (Coq_xO (Coq_xO (Coq_xO (Coq_xO (Coq_xO
-                 (Coq_xO (Coq_xO (Coq_xO (Coq_xO (Coq_xO (Coq_xO (Coq_xO
-                 (Coq_xO (Coq_xO (Coq_xO (Coq_xO (Coq_xO (Coq_xO (Coq_xO
-                 (Coq_xO (Coq_xO
-                 Coq_xH)))))))))))))))))))))))))))))))))))))))))))))))))))))))))))))))))
-          else d))
+  else let d = Z.sub mx mn in
+       Val
+       (if Z.ltb d Z0
+        then Z.add d (Zpos (Coq_xO (Coq_xO (Coq_xO (Coq_xO (Coq_xO (Coq_xO
+               (Coq_xO (Coq_xO (Coq_xO (Coq_xO (Coq_xO (Coq_xO (Coq_xO
+               (Coq_xO (Coq_xO (Coq_xO (Coq_xO (Coq_xO (Coq_xO (Coq_xO
+               (Coq_xO (Coq_xO (Coq_xO (Coq_xO (Coq_xO (Coq_xO (Coq_xO
+               (Coq_xO (Coq_xO (Coq_xO (Coq_xO (Coq_xO (Coq_xO (Coq_xO
+               (Coq_xO (Coq_xO (Coq_xO (Coq_xO (Coq_xO (Coq_xO (Coq_xO
+               (Coq_xO (Coq_xO (Coq_xO (Coq_xO (Coq_xO (Coq_xO (Coq_xO
+               (Coq_xO (Coq_xO (Coq_xO (Coq_xO (Coq_xO (Coq_xO (Coq_xO
+               (Coq_xO (Coq_xO (Coq_xO (Coq_xO (Coq_xO (Coq_xO (Coq_xO
+               (Coq_xO (Coq_xO
+               Coq_xH)))))))))))))))))))))))))))))))))))))))))))))))))))))))))))))))))
+        else d)
 
 (** val wmax : etype -> coq_Z **)
 
